@@ -813,3 +813,92 @@ func FuzzC07(f *testing.F) {
 		}
 	})
 }
+
+// blocksDigest renders what a caller can observe of returned blocks, restricted
+// to logs matching (addrs, topic0) when given.
+func blocksDigest(blocks []eth.Block, logFilter func(l *eth.Log) bool) string {
+	var sb strings.Builder
+	for i := range blocks {
+		b := &blocks[i]
+		fmt.Fprintf(&sb, "B%d h=%x p=%x t=%d|", b.Num(), b.Hash(), b.Header.Parent, b.Header.Time)
+		txs := append([]int{}, make([]int, len(b.Txs))...)
+		for j := range txs {
+			txs[j] = j
+		}
+		sort.Slice(txs, func(x, y int) bool { return b.Txs[txs[x]].Idx < b.Txs[txs[y]].Idx })
+		for _, j := range txs {
+			tx := &b.Txs[j]
+			fmt.Fprintf(&sb, " T%d h=%x in=%x v=%s st=%d gu=%d to=%x", tx.Idx, tx.PrecompHash, tx.Data, tx.Value.Dec(), tx.Status, tx.GasUsed, tx.To)
+			ls := append(eth.Logs{}, tx.Logs...)
+			sort.Slice(ls, func(x, y int) bool { return ls[x].Idx < ls[y].Idx })
+			for k := range ls {
+				if logFilter != nil && !logFilter(&ls[k]) {
+					continue
+				}
+				fmt.Fprintf(&sb, " L%d a=%x d=%x tp=%x", ls[k].Idx, ls[k].Address, ls[k].Data, ls[k].Topics)
+			}
+			for k, ta := range tx.TraceActions {
+				fmt.Fprintf(&sb, " A%d %x>%x %s %s", k, ta.From, ta.To, ta.Value.Dec(), ta.CallType)
+			}
+		}
+		sb.WriteString("\n")
+	}
+	return sb.String()
+}
+
+// TestC07_RetryCached: with the caching client, a rejected (corrupted) response
+// must not be what a retry of the same request returns.
+func TestC07_RetryCached(t *testing.T) {
+	ev := evid.For("C07", "RetryCached")
+	_, ns := env()
+	rapid.Check(t, func(rt *rapid.T) {
+		plan := rapid.SampledFrom(c07PlanNames).Draw(rt, "plan")
+		limit := uint64(rapid.IntRange(1, 4).Draw(rt, "limit"))
+		start := uint64(rapid.IntRange(1, 11-int(limit)).Draw(rt, "start"))
+		filter := glf.New(c07Plans[plan], nil, nil)
+		mut := c07Mut{req: rapid.IntRange(0, 3).Draw(rt, "req"), op: rapid.IntRange(0, len(c07Ops)-1).Draw(rt, "op"), pos: rapid.IntRange(0, 4).Draw(rt, "pos"), arg: rapid.IntRange(0, 50).Draw(rt, "arg")}
+		// reference: clean uncached read
+		refNode := sim.NewNode(c07Chain().Clone())
+		refURL := ns.Attach(refNode, "nocache")
+		defer ns.Detach(refURL)
+		ref, err := jrpc2.New(refURL).Get(context.Background(), refURL, filter, start, limit)
+		if err != nil {
+			rt.Fatalf("VERIF-INCONCLUSIVE clean read failed: %v", err)
+		}
+		want := blocksDigest(ref, nil)
+		node := sim.NewNode(c07Chain().Clone())
+		reqN, applied := 0, ""
+		node.OnRequest = func(n *sim.Node, ri sim.ReqInfo) *sim.Fault {
+			i := reqN
+			reqN++
+			if i != mut.req {
+				return nil
+			}
+			return &sim.Fault{Mutate: func(resp any) any {
+				if out, ok := c07Ops[mut.op].apply(resp, mut.pos, mut.arg); ok {
+					applied = c07Ops[mut.op].name + "(" + ri.Kind + ")"
+					return out
+				}
+				return resp
+			}}
+		}
+		url := ns.Attach(node, "")
+		defer ns.Detach(url)
+		c := jrpc2.New(url).WithMaxReads(rapid.IntRange(1, 4).Draw(rt, "maxreads"))
+		_, err1 := c.Get(context.Background(), url, filter, start, limit)
+		rejected := err1 != nil
+		for try := 0; try < 3; try++ {
+			got, err := c.Get(context.Background(), url, filter, start, limit)
+			if err != nil {
+				continue
+			}
+			if rejected && blocksDigest(got, nil) != want {
+				rt.Fatalf("VERIF-VIOLATION property=C07 plan=%s start=%d limit=%d: after %s was rejected (%v), retry %d returned data that differs from a clean read\n got:  %.600s\n want: %.600s", plan, start, limit, applied, err1, try+1, blocksDigest(got, nil), want)
+			}
+		}
+		ev.Case(rejected && applied != "", fmt.Sprintf("%s %d %d %s", plan, start, limit, applied), fmt.Sprintf("rejected=%v", rejected))
+		if rejected && ev.WantSample(3) {
+			ev.Sample(3, fmt.Sprintf("plan=%s start=%d limit=%d first call corrupted by %s -> %v; retries compared with a clean read", plan, start, limit, applied, err1))
+		}
+	})
+}
